@@ -369,6 +369,19 @@ def locateWindowWith (maxSearch : Nat) (H : Bytes → Bytes) (mmap : Bytes) :
 def locateWindow (H : Bytes → Bytes) (mmap : Bytes) : Out (Option (Footer.FooterSlice × Nat)) :=
   locateWindowWith Gen.C22.MAX_SEARCH_SIZE H mmap
 
+/-- the window starts `locate_footer_window` visits while no window holds a valid footer: pure
+    arithmetic (no bytes), so it can be evaluated for file sizes far beyond what the byte-level model
+    can hold (the real constant is 16 MiB; `C22_window_plan` links it to `windowLoop`) -/
+def windowStarts : Nat → Nat → Nat → List Nat
+  | 0, _, _ => []
+  | fuel + 1, len, window =>
+    (len - window) :: (if window = len then [] else windowStarts fuel len (min (window * 2) len))
+
+def windowPlanWith (maxSearch len : Nat) : List Nat :=
+  if len = 0 then [] else windowStarts (len + 1) len (min maxSearch len)
+
+def windowPlan (len : Nat) : List Nat := windowPlanWith Gen.C22.MAX_SEARCH_SIZE len
+
 /-! ### D7 WAL: `EmbeddedWal::scan_records`, `open_internal` (src/io/wal.rs) -/
 
 def EHS : Nat := Wal.ENTRY_HEADER_SIZE
